@@ -968,8 +968,12 @@ int sim_wrap_next(sim_xop *x)
 		plan_op *po = &X->wraps.v[X->wrap_pos++];
 		int save_in = I->in_action, save_eof = I->is_eof;
 		int ok;
-		if (po->code == SOP_STOP)
-			break;
+		if (po->code == SOP_STOP) {
+			x->code = SOP_STOP;
+			I->wrap_stop_in_op = 1;
+			ev("W %d STOP a=0 b=0 h=-1", (int) (po - X->wraps.v));
+			return SOP_STOP;
+		}
 		/* yywrap may do what an <<EOF>> action may do */
 		I->in_action = 1;
 		I->is_eof = 1;
